@@ -92,7 +92,7 @@ Definition run_cli (t c : option string) (f : string) : string :=
 
 Extraction "Extract/model.ml"
   tables_current tables_pinned prims_current prims_pinned
-  run_decode run_obj run_objev run_evobj run_spec run_spec_lenient run_attr run_rc run_rc_spec run_cli run_pretty run_fe_hex run_fe_swtpm run_fe_auto run_fe_pcap find_type
+  run_decode run_obj run_objev run_evobj run_sevobj run_spec run_spec_lenient run_attr run_rc run_rc_spec run_cli run_pretty run_fe_hex run_fe_swtpm run_fe_auto run_fe_pcap find_type
   prim_text prim_bytes valid representable pname pwidth psigned pkind_
   hex2 dec_string show_hex_
   RType RCommand RResponse RStream.
